@@ -71,7 +71,10 @@ class ThrottleDriver:
             raise drv.errs[c]
 
         p = float(period) if init["pform"] == "float" else timedelta(seconds=period * self.unit)
-        self.wrapped = throttle(limit=limit, period=p)(decoyed(fn))
+        if limit == 1 and init["pform"] == "float" and period == 1:
+            self.wrapped = throttle(decoyed(fn))      # the defaults: the decorator used bare
+        else:
+            self.wrapped = throttle(limit=limit, period=p)(decoyed(fn))
 
     async def _caller(self, c):
         try:
@@ -202,6 +205,9 @@ def run(rep, work, tier, seed):
     late = dict(NCalls=5, Limits=[2], Periods=[1] if tier == "quick" else [1, 2], MaxT=1 if tier == "quick" else 2, Late=True, Bug="none")
     leg_m(rep, work, SPEC, f"late_mc_{tier}", cfg_text(late, invariants=INVS), expect_actions=["TickArrive", "Wake", "Decide"])
     leg_r(rep, work, SPEC, f"late_conf_{tier}", cfg_text(late, invariants=INVS), ThrottleDriver, internal=INTERNAL)
+    # the decorator used bare (`@throttle`: limit 1, period 1 second)
+    bare = dict(NCalls=3, Limits=[1], Periods=[1], MaxT=3, Late=False, Bug="none")
+    leg_r(rep, work, SPEC, f"bare_conf_{tier}", cfg_text(bare, invariants=INVS), ThrottleDriver, internal=INTERNAL)
     # leg T: arrival patterns of up to 12 calls recorded from the real throttle, validated by a trace module generated
     # from Throttle.tla (internal Decide / Wake / Settle steps run silently between the logged events)
     rnd = random.Random(seed * 17 + 3)
